@@ -474,6 +474,7 @@ func (st *State) restore(s *snapshot) {
 	st.vars = st.vars[:s.varsLen]
 	st.model = s.model
 	st.now = s.now
+	st.steps = s.steps
 	st.cur = s.cur
 	st.gs = make([]*Goroutine, len(s.gs))
 	for i, g := range s.gs {
